@@ -467,7 +467,8 @@ fn cert_to_map(
     cert: &asn1::CertificateWithThumbprint,
     with_valid_on: bool,
 ) -> HashMap<&'static str, Value> {
-    let version = cert.cert.tbs_certificate.version + 1;
+    // The version is read from the certificate: do the addition in a wider type.
+    let version = i64::from(cert.cert.tbs_certificate.version) + 1;
     let serial_number = serial_number_to_string(cert.cert.tbs_certificate.serial_number.as_bytes());
 
     let not_before = time_to_ts(cert.cert.tbs_certificate.validity.not_before);
